@@ -25,7 +25,7 @@ RULE = ("(a) coverage-guided fuzzing (libFuzzer + ASan) of zif_open and tzm_open
         "(neighbours of present keys, one byte shorter/longer, beyond both ends) must be absent. "
         "(d) zone specifications with long / odd names through dconv --zone. Non-trivial: fuzz "
         "inputs that pass the open; map lookups of keys adjacent in sort order to a key of different length"
-        " Map sources with an odd number of lines end without a newline; absent keys also through dconv --zone MAP:KEY and in front of a present key in dzone.")
+        " Map sources with an odd number of lines end without a newline; the 64 KiB end of the zone-name pool is approached by construction (1364 names of 48 bytes, one of 44..75 bytes, then 0..3 or twelve short ones: refused, or every key answers with its own zone); absent keys also through dconv --zone MAP:KEY and in front of a present key in dzone.")
 ASSUMPTIONS = ["map sources are sorted and duplicate-free as `tzmap check` demands",
                "a libFuzzer timeout / oom artifact is load noise unless it reproduces standalone"]
 
@@ -206,6 +206,14 @@ def _gen_map(rnd, n, style=None):
     return src, style
 
 
+def _gen_poolwindow(L, nt=12):
+    src = [("K%05d" % i, "Zone/%05d/%s" % (i, "x" * 36)) for i in range(1364)]
+    src.append(("K01364", "W/" + "y" * (L - 2)))
+    for j in range(nt):
+        src.append(("K%05d" % (1365 + j), ("T%d" % j) + "z" * (j % 5)))
+    return src
+
+
 def _compile_map(ctx, src, d, name):
     sp = os.path.join(d, name + ".tzmap")
     with open(sp, "w", encoding="utf-8") as fh:
@@ -312,9 +320,35 @@ def mapfid(ctx, shard, nshards):
                     V.add("map:absent-tool:%s" % bad[0], {"src": src, "absent": kabs, "key": k, "zone": z, "kind": "mapabsent"},
                           expected=bad[1], actual=bad[2], weight=len(src))
             os.unlink(out)
+        # the 64 KiB end of the zone-name pool, by construction: 1364 names of 48 bytes, one name of
+        # L bytes that ends around offset 65536, then short names that step over the end byte by byte
+        # (offsets are 16 bits wide: the source is refused, or every key answers with its own zone)
+        for L, nt in [(L, nt) for L in range(44, 76) for nt in (12, L % 4)]:
+            if (L - 44) % nshards != shard:
+                continue
+            src = _gen_poolwindow(L, nt)
+            out = _compile_map(ctx, src, d, "w%d" % L)
+            if out is None:
+                sub.cls("poolwindow refused by tzmap cc")
+                continue
+            sub.cls("poolwindow compiled")
+            idx = sorted(set(list(range(len(src) - 24, len(src))) + [rnd.randrange(len(src)) for _ in range(40)] + [0]))
+            ks = [src[i][0] for i in idx]
+            want = [src[i][1] for i in idx]
+            r = tools.run([tzmap, "show", "-f", out, "--"] + ks, env=env, timeout=30)
+            got = r.lines()
+            sub.evaluations += len(ks)
+            sub.nt(("poolwindow", L, nt))
+            if r.crashed or got != want:
+                bad = [(k, w, g) for k, w, g in zip(ks, want, got + [None] * len(want)) if w != g][:3]
+                V.add("map:present:poolwindow", {"src": src, "keys": ks, "want": want, "kind": "mapshow"},
+                      expected=bad and bad[0][1], actual={"first_bad": bad, "n": len(got), "err": r.err[:300].decode("latin-1")},
+                      weight=L)
+            os.unlink(out)
     finally:
         shutil.rmtree(d, ignore_errors=True)
     sub.sample({"map": "300 keys, style prefixy", "present": "all keys", "absent": "neighbours"})
+    sub.sample({"map": "poolwindow L=60: 1364 names of 48 bytes, one of 60, 12 of 2..6", "present": "the last 24 keys, the first, 40 drawn"})
     return sub
 
 
